@@ -247,7 +247,7 @@ def trigger_of(case, sess, v):
 def _run(ctx, work):
     rng = random.Random(ctx.seed)
     K = ctx.pick(3, 4)
-    nlines = ctx.pick(3, 3)
+    nlines = ctx.pick(3, 2)      # thorough: longer histories over fewer breakpoint lines
     jobs = []
     for name in PROGRAMS:
         for O in (0, 1, 2):
@@ -268,12 +268,32 @@ def _run(ctx, work):
         raise Machinery('no debugger cases')
     cpath = os.path.join(work, 'mc-cases.json')
     tlc.write_json(cpath, [{'T': c['T'], 'L': c['L']} for c in cases])
-    r = tlc.run_tlc('MC_Debugger', MC_CFG % K, env={'CASES_FILE': cpath}, workers=12, timeout=3000, heap='10g')
-    if r.error or r.invariant:
-        raise Machinery('MC_Debugger: ' + str(r.invariant or r.error)[:1500])
     hist = {}
-    for x in r.printed:
-        hist.setdefault(x['c'], set()).add(tuple((a, b) for a, b in x['h']))
+    if ctx.quick():
+        r = tlc.run_tlc('MC_Debugger', MC_CFG % K, env={'CASES_FILE': cpath}, workers=12, timeout=3000, heap='10g')
+        if r.error or r.invariant:
+            raise Machinery('MC_Debugger: ' + str(r.invariant or r.error)[:1500])
+        for x in r.printed:
+            hist.setdefault(x['c'], set()).add(tuple((a, b) for a, b in x['h']))
+    else:
+        # thorough: histories of length K over the fixed programs, of length K - 1 over the generated ones
+        # (cases are ordered fixed first; the case numbers of the second run are shifted back)
+        nfix = sum(1 for c in cases if c['name'] in PROGRAMS)
+        fpath = os.path.join(work, 'mc-fixed.json')
+        tlc.write_json(fpath, [{'T': c['T'], 'L': c['L']} for c in cases[:nfix]])
+        r = tlc.run_tlc('MC_Debugger', MC_CFG % K, env={'CASES_FILE': fpath}, workers=12, timeout=6000, heap='12g')
+        if r.error or r.invariant:
+            raise Machinery('MC_Debugger: ' + str(r.invariant or r.error)[:1500])
+        for x in r.printed:
+            hist.setdefault(x['c'], set()).add(tuple((a, b) for a, b in x['h']))
+        if len(cases) > nfix:
+            gpath = os.path.join(work, 'mc-gen.json')
+            tlc.write_json(gpath, [{'T': c['T'], 'L': c['L']} for c in cases[nfix:]])
+            rg = tlc.run_tlc('MC_Debugger', MC_CFG % (K - 1), env={'CASES_FILE': gpath}, workers=12, timeout=6000, heap='12g')
+            if rg.error or rg.invariant:
+                raise Machinery('MC_Debugger (generated): ' + str(rg.invariant or rg.error)[:1500])
+            for x in rg.printed:
+                hist.setdefault(x['c'] + nfix, set()).add(tuple((a, b) for a, b in x['h']))
     # deeper random histories
     r2 = tlc.run_tlc('MC_Debugger', MC_CFG % ctx.pick(8, 12), env={'CASES_FILE': cpath}, workers=1, simulate=ctx.pick(300, 6000),
                      depth=ctx.pick(9, 13), seed=ctx.seed, timeout=1500, heap='4g')
